@@ -48,7 +48,15 @@ def run_func(repo, qual, env, file=FILE, extra_imports=None):
     fi = repo.func(file, qual)
     if id(repo) not in _PKG:
         _PKG[id(repo)] = Package(repo)
-    e = dict(_PKG[id(repo)].env(file))
+    modenv = _PKG[id(repo)].env(file)
+    # names given in `env` that are not parameters of the function (fake modules, fake sibling functions) must also be
+    # seen by module-local helper functions the body may delegate to: shadow them in the module environment for the call
+    params = set(func_params(fi.node))
+    shadow = {k: v for k, v in env.items() if k not in params}
+    saved = {k: modenv[k] for k in shadow if k in modenv}
+    missing = [k for k in shadow if k not in modenv]
+    modenv.update(shadow)
+    e = dict(modenv)
     e.update(env)
     imp = dict(IMPORTS)
     if extra_imports:
@@ -61,6 +69,10 @@ def run_func(repo, qual, env, file=FILE, extra_imports=None):
         return ("raise", ex.kind)
     except Unsupported as ex:
         raise AnalysisError(f"{qual}: unrecognised idiom: {ex}", file, fi.node.lineno)
+    finally:
+        for k in missing:
+            modenv.pop(k, None)
+        modenv.update(saved)
     if isinstance(r, tuple):
         return r
     return ("return", None)
@@ -138,7 +150,8 @@ def run(chk):
     vocabulary_rule(chk, repo, "C01.S.vocabulary", [(FILE, "cnf"), (FILE, "approx_model_count")])
     dispatch_rule(chk, repo, "C01.S.dispatch", FILE, "cnf", set(sup) - {"x"})
     nsinks = idpool_string_key_rule(chk, repo, "C01.S.aux-key-not-a-string", FILE, "cnf")
-    chk.floor("IDPool.id call sites in cnf", nsinks, 3)
+    if nsinks == 0:
+        chk.note("C01.S.aux-key-not-a-string: no IDPool.id call site recognised in cnf itself (delegated to helpers); the evaluation rule C01.N decides")
 
     def encode(spec):
         c, types, fanin = make_circuit(spec)
@@ -238,7 +251,8 @@ def run(chk):
 
     fcs = repo.func(FILE, "construct_solver")
     pcs = func_params(fcs.node)
-    add_asm_closure = BlockInterp({"__imports__": IMPORTS}).make_closure(fa.node)
+    run_func(repo, "add_assumptions", {pa[0]: MCNF(), pa[1]: MIDPool(), pa[2]: {}})  # makes sure the module environment exists
+    add_asm_closure = _PKG[id(repo)].func(FILE, "add_assumptions")
     for case, asm, want_raise in (("valid", {"a": True, "g": False}, False), ("non-node key", {"a": True, "ghost": True}, True), ("none", None, False)):
         spec = {"a": ("input", []), "b": ("input", []), "g": ("and", ["a", "b"])}
         c, types, fanin = make_circuit(spec)
